@@ -5,7 +5,7 @@ usage: selftest/run.py [--only substr] [--tier quick]"""
 import json, os, shutil, subprocess, sys, time
 HERE = os.path.dirname(os.path.abspath(__file__))
 VERIF = os.path.dirname(HERE)
-MUT = "/var/tmp/verif-mut"
+MUT = "/var/tmp/verif-mut-" + os.environ.get("VERIF_SLOT", "main")
 
 def main():
     only = None
